@@ -13,6 +13,7 @@ A property module (mc/props/cNN.py) provides
 import os, sys, json, time, signal, hashlib, importlib, random, subprocess, traceback, collections
 from concurrent.futures import ProcessPoolExecutor, as_completed
 import multiprocessing as mp
+from mc import session
 
 ROOT = os.path.dirname(os.path.dirname(os.path.abspath(__file__)))
 REPO = os.environ.get('EMMET_REPO', '/repo')
@@ -132,6 +133,7 @@ def _run_shard(args):
     _CTX = ctx
     err = None
     try:
+        session.reset()
         mod.run_shard(shard, ctx, tier)
     except HangError:
         _HANGS += 1
@@ -221,6 +223,7 @@ def cmd_replay(argv):
     try:
         if 'shard' in doc:
             try:
+                session.reset()
                 mod.run_shard(doc['shard'], _CTX, doc.get('tier', 'quick'))
             except HangError:
                 _CTX.violation('hang', _CTX.current, 'no progress')
